@@ -174,13 +174,17 @@ class Telomere:
     def start(self):
         """Start the agent lifecycle (transition from NASCENT to ACTIVE)."""
         with self._lock:
-            if self._phase != LifecyclePhase.NASCENT:
-                return
+            self._start_unlocked()
 
-            self._started_at = datetime.now()
-            self._last_activity = self._started_at
-            self._transition_to(LifecyclePhase.ACTIVE)
-            self._log_event("started")
+    def _start_unlocked(self):
+        """NASCENT -> ACTIVE; the caller holds the lock."""
+        if self._phase != LifecyclePhase.NASCENT:
+            return
+
+        self._started_at = datetime.now()
+        self._last_activity = self._started_at
+        self._transition_to(LifecyclePhase.ACTIVE)
+        self._log_event("started")
 
     def tick(self, cost: int = 1) -> bool:
         """
@@ -196,7 +200,7 @@ class Telomere:
 
             # Auto-start if still nascent
             if self._phase == LifecyclePhase.NASCENT:
-                self.start()
+                self._start_unlocked()
 
             self._operations_count += 1
             self._telomere_length = max(0, self._telomere_length - cost)
